@@ -249,7 +249,8 @@ func init() {
 			listing(c)
 		}
 		op["canaryhits"] = s.canaryHits()
-		s.takeLog()
+		/* what went over the wire while the world was browsed (judged under C04) */
+		op["wire"] = logSummary(s.takeLog())
 		return res
 	}
 	groups["C02"] = group{gen: genPubWorld}
